@@ -252,7 +252,9 @@ Fixpoint read_from_loop (fuel : nat) (s : src) (total : N) (w : writer)
         end
     else
       let '((b, e), s') := read1 (w_available w) s in
-      let w1 := set_buf w (w_buf w ++ b) (w_dirty w) in
+      (* bytes accepted make the message dirty at once (fix F21): Flush must end the message even when
+         the source fails after a full buffer has left as a non-final fragment *)
+      let w1 := set_buf w (w_buf w ++ b) (w_dirty w || (0 <? len b)) in
       match e with
       | Some EEOF => (inr (total + len b, None), set_buf w1 (w_buf w1) true, s')
       | Some _ => (inr (total + len b, Some WDest), w1, s')   (* the source's own error *)
